@@ -58,7 +58,8 @@ func roParts(t *Term) (string, ssa.Value, []int, bool) {
 }
 
 func fnTerm(fn *ssa.Function) *Term {
-	return &Term{K: TLeaf, V: fn, T: fn.Type(), key: "fn:" + qualifiedFnName(fn) + fmt.Sprintf("@%d", int(fn.Pos()))}
+	// (CV: the same value for the readers of frozen init-time memory, pxconc.go)
+	return &Term{K: TLeaf, V: fn, T: fn.Type(), CV: &cval{k: cvFunc, Fn: fn, T: fn.Type()}, key: "fn:" + qualifiedFnName(fn) + fmt.Sprintf("@%d", int(fn.Pos()))}
 }
 
 // zeroOf: the term of the zero value of t (nil for types without one here).
@@ -237,7 +238,17 @@ func (p *PX) roComponent(a *Term, i int, fr *pxFrame, st *pxState) *Term {
 
 // componentOf: field / element i of an aggregate value term.
 func (p *PX) componentOf(whole *Term, i int, fr *pxFrame, st *pxState) *Term {
-	if whole == nil || whole.K != TPure {
+	if whole == nil {
+		return nil
+	}
+	if whole.CV != nil {
+		// a concrete aggregate read from frozen init-time memory (pxconc.go)
+		if ct, ok := componentType(whole.T, i); ok {
+			return p.concElem(whole, i, ct)
+		}
+		return nil
+	}
+	if whole.K != TPure {
 		return nil
 	}
 	switch whole.Name {
@@ -249,4 +260,22 @@ func (p *PX) componentOf(whole *Term, i int, fr *pxFrame, st *pxState) *Term {
 		}
 	}
 	return nil
+}
+
+// componentType: the type of field / element i of a struct / array type.
+func componentType(t types.Type, i int) (types.Type, bool) {
+	if t == nil || i < 0 {
+		return nil, false
+	}
+	switch u := t.Underlying().(type) {
+	case *types.Struct:
+		if i < u.NumFields() {
+			return u.Field(i).Type(), true
+		}
+	case *types.Array:
+		if int64(i) < u.Len() {
+			return u.Elem(), true
+		}
+	}
+	return nil, false
 }
